@@ -270,6 +270,28 @@ def load_file_rule(ctx, program, rid):
               msg=f"load_file: {bad_reg}", key="register only after success", node=f, rel="global_ctx.py")
 
 
+def load_file_identity_rule(ctx, program, rid):
+    """While a file's code is being evaluated its context already knows which file it is (relative imports inside it are named from that)."""
+    from ..absint import Const, ObjV, Sym
+    uid = "global_ctx.py::GlobalContextMgr.load_file"
+    seen = []
+
+    def on_eval(i, n, a, k, c, o):
+        seen.append((c.heap.get("gctx.file_path"), c.heap.get("gctx.source")))
+        return [(c, Const(None))]
+
+    pol = FlowPolicy(program, may_raise_all=False, cancel=False, summaries={"ast_ctx.eval": on_eval, "cls.get": lambda i, n, a, k, c, o: [(c, Const(None))],
+                                                                            "global_ctx.get_name": lambda i, n, a, k, c, o: [(c, Const("modules.pkg.helper"))]})
+    run_flow(program, uid, pol, args={"cls": Sym(("cls",)), "global_ctx": ObjV("gctx", "GlobalContext"),
+                                      "file_path": Const("/cfg/pyscript/modules/pkg/helper.py"), "source": Const("from .counter import bump"), "reload": Const(False)},
+             heap={"gctx.file_path": Const(None), "gctx.source": Const(None), "gctx.mtime": Const(None)})
+    ok = bool(seen) and all(fp == Const("/cfg/pyscript/modules/pkg/helper.py") and src == Const("from .counter import bump") for fp, src in seen)
+    ctx.check(ok, rid, uid, "file path and source are recorded in the context before its code runs",
+              msg=f"load_file: when the file's code is evaluated the context holds file_path/source {[(repr(a), repr(b)) for a, b in seen]}: a relative import executed at top level of a plain "
+              f"package module is then named after the wrong package (module_import reads the importer's file_path), the sibling is loaded under a name the file scan does not know and is "
+              f"dropped at the next reload", key="identity before eval", node=program.func(uid), rel="global_ctx.py")
+
+
 def _same_slot(a, b):
     """handle stored in cls.notify_remove[event_type] ~ handle stored in cls.notify_remove[event_type] (call) / same container."""
     if a.startswith("handle stored in ") and b.startswith("handle stored in "):
